@@ -217,6 +217,8 @@ def directed(ctx, only=None):
     sides = [{"q": 3}, {"xs": [], "n": 0, "t": [], "d": {}, "o": {"n": 1, "items": [], "child": None}, "x": 0, "q": 0}]
     extra = [("all(y > 1 for y in xs if y != 5 if 10 // (y - 5) < 100)", {"xs": [7, 5, 0]}),
              ("add(*xs) > 1000", {}),
+             # an unknown (None-bound) value inside a mapping unpacked into a call (finding D32)
+             ("kw(**{'a': len([*xs, id]), 'b': n}) > 1000", {"id": None}), ("kw(**{'a': ident(id) or 1}) > 1000", {"id": None}),
              ("((m @ m)[0, 1] + x) > 1000", {}), ("x > 1000 or ((m @ (m))[1, 1] > 1000)", {}),
              # displays with unpacked items (finding D27)
              ("len([*xs, x]) > 1000", {}), ("sum((*xs, n)) > 1000", {}), ("len({*xs, x}) > 1000", {}),
